@@ -99,6 +99,24 @@ Definition n_Relationship  : list N := Eval vm_compute in s2l "Relationship"%str
 Definition n_Relationships : list N := Eval vm_compute in s2l "Relationships"%string.
 Definition a_Id     : list N := Eval vm_compute in s2l "Id"%string.
 Definition a_Target : list N := Eval vm_compute in s2l "Target"%string.
+Definition a_Type   : list N := Eval vm_compute in s2l "Type"%string.
+(* relationship types that name a sheet part: ECMA-376 transitional, ISO strict, Microsoft *)
+Definition t_ws : list N :=
+  Eval vm_compute in s2l "http://schemas.openxmlformats.org/officeDocument/2006/relationships/worksheet"%string.
+Definition t_ws_strict : list N :=
+  Eval vm_compute in s2l "http://purl.oclc.org/ooxml/officeDocument/relationships/worksheet"%string.
+Definition t_cs : list N :=
+  Eval vm_compute in s2l "http://schemas.openxmlformats.org/officeDocument/2006/relationships/chartsheet"%string.
+Definition t_cs_strict : list N :=
+  Eval vm_compute in s2l "http://purl.oclc.org/ooxml/officeDocument/relationships/chartsheet"%string.
+Definition t_ds : list N :=
+  Eval vm_compute in s2l "http://schemas.openxmlformats.org/officeDocument/2006/relationships/dialogsheet"%string.
+Definition t_ds_strict : list N :=
+  Eval vm_compute in s2l "http://purl.oclc.org/ooxml/officeDocument/relationships/dialogsheet"%string.
+Definition t_xlm : list N :=
+  Eval vm_compute in s2l "http://schemas.microsoft.com/office/2006/relationships/xlMacrosheet"%string.
+Definition t_xlim : list N :=
+  Eval vm_compute in s2l "http://schemas.microsoft.com/office/2006/relationships/xlIntlMacrosheet"%string.
 Definition n_workbook   : list N := Eval vm_compute in s2l "workbook"%string.
 Definition n_sheets     : list N := Eval vm_compute in s2l "sheets"%string.
 Definition n_sheet      : list N := Eval vm_compute in s2l "sheet"%string.
@@ -900,28 +918,45 @@ Fixpoint eq_ignore_ascii_case (a b : str) : bool :=
 Definition find_part {A} (parts : list (str * A)) (path : str) : option (str * A) :=
   find (fun p => eq_ignore_ascii_case (fst p) path) parts.
 
-(* read_relationships: BTreeMap<Id bytes, Target>; later inserts replace earlier ones *)
-Fixpoint rel_attrs (a : attrs) (id target : str) : str * str :=
+(* SheetType::from_relationship_type (lib.rs): the kind of sheet a workbook relationship Type
+   names (0 worksheet, 1 chartsheet, 2 dialogsheet, 3 macro sheet); None for any other type *)
+Definition sheet_type_of_rel (t : str) : option N :=
+  if str_eqb t t_ws || str_eqb t t_ws_strict then Some 0
+  else if str_eqb t t_cs || str_eqb t t_cs_strict then Some 1
+  else if str_eqb t t_ds || str_eqb t t_ds_strict then Some 2
+  else if str_eqb t t_xlm || str_eqb t t_xlim then Some 3
+  else None.
+
+(* `match rel_typ { Some(t) => t, None => match path.split('/').nth(1) { .. } }`: the relationship
+   type decides; the folder of the part only when the type names no sheet kind *)
+Definition sheet_type (rt : option N) (path : str) : option N :=
+  match rt with Some k => Some k | None => sheet_type_of path end.
+
+(* read_relationships: BTreeMap<Id bytes, (Target, Option<SheetType>)>; later inserts replace
+   earlier ones *)
+Definition relmap := list (str * (str * option N)).
+Fixpoint rel_attrs (a : attrs) (id target : str) (typ : option N) : str * (str * option N) :=
   match a with
-  | [] => (id, target)
+  | [] => (id, (target, typ))
   | (k, v) :: r =>
-      if str_eqb k a_Id then rel_attrs r (id ++ v) target          (* id.extend_from_slice *)
-      else if str_eqb k a_Target then rel_attrs r id v
-      else rel_attrs r id target
+      if str_eqb k a_Id then rel_attrs r (id ++ v) target typ      (* id.extend_from_slice *)
+      else if str_eqb k a_Target then rel_attrs r id v typ
+      else if str_eqb k a_Type then rel_attrs r id target (sheet_type_of_rel v)
+      else rel_attrs r id target typ
   end.
 
-Fixpoint read_relationships (acc : list (str * str)) (evs : list event) : outcome (list (str * str)) :=
+Fixpoint read_relationships (acc : relmap) (evs : list event) : outcome relmap :=
   match evs with
   | [] => Err E_EOF
   | Start n a :: rest =>
-      if is_local n_Relationship n then read_relationships (rel_attrs a [] [] :: acc) rest
+      if is_local n_Relationship n then read_relationships (rel_attrs a [] [] None :: acc) rest
       else read_relationships acc rest
   | End n :: rest =>
       if is_local n_Relationships n then Ok acc else read_relationships acc rest
   | _ :: rest => read_relationships acc rest
   end.
 (* [acc] is most-recent-first, so the first hit is the last insert *)
-Definition rel_get (rels : list (str * str)) (id : str) : option str :=
+Definition rel_get (rels : relmap) (id : str) : option (str * option N) :=
   match find (fun p => str_eqb (fst p) id) rels with Some p => Some (snd p) | None => None end.
 
 (* THE relationship-id attribute of <sheet>.  [rid_fix_applied] = false models the tree as it is
@@ -937,25 +972,26 @@ Definition is_rid_attr_gen (fixed : bool) (k : str) : bool :=
   else str_eqb k a_rid || str_eqb k a_relsid.
 Definition sheet_rid_attr (k : str) : bool := is_rid_attr_gen rid_fix_applied k.
 
-(* the attribute loop of the `sheet` arm *)
-Fixpoint sheet_attrs (rels : list (str * str)) (a : attrs) (name path : str) : outcome (str * str) :=
+(* the attribute loop of the `sheet` arm; rt = rel_typ, the kind the relationship type names *)
+Fixpoint sheet_attrs (rels : relmap) (a : attrs) (name path : str) (rt : option N)
+  : outcome (str * str * option N) :=
   match a with
-  | [] => Ok (name, path)
+  | [] => Ok (name, path, rt)
   | (k, v) :: r =>
-      if str_eqb k a_name then sheet_attrs rels r v path
+      if str_eqb k a_name then sheet_attrs rels r v path rt
       else if str_eqb k a_state then
         if str_eqb v v_visible || str_eqb v v_hidden || str_eqb v v_veryHidden
-        then sheet_attrs rels r name path else Err E_UNRECOGNIZED
+        then sheet_attrs rels r name path rt else Err E_UNRECOGNIZED
       else if sheet_rid_attr k then
         match rel_get rels v with
-        | Some t => sheet_attrs rels r name (normalize_target t)
+        | Some (t, ty) => sheet_attrs rels r name (normalize_target t) ty
         | None => Err E_REL_NOT_FOUND
         end
-      else sheet_attrs rels r name path
+      else sheet_attrs rels r name path rt
   end.
 
 (* [skip] = Some name while the definedName arm consumes events up to its end tag *)
-Fixpoint read_workbook (rels : list (str * str)) (skip : option str) (is1904 : bool)
+Fixpoint read_workbook (rels : relmap) (skip : option str) (is1904 : bool)
          (racc : list (str * str)) (evs : list event) : outcome (list (str * str) * bool) :=
   match evs with
   | [] => Err E_EOF
@@ -971,9 +1007,9 @@ Fixpoint read_workbook (rels : list (str * str)) (skip : option str) (is1904 : b
       match e with
       | XmlText.Start n a =>
         if is_local n_sheet n then
-          match sheet_attrs rels a [] [] with
-          | Ok (name, path) =>
-              match sheet_type_of path with
+          match sheet_attrs rels a [] [] None with
+          | Ok (name, path, rt) =>
+              match sheet_type rt path with
               | Some _ => read_workbook rels None is1904 ((name, path) :: racc) rest
               | None => Err E_UNRECOGNIZED
               end
@@ -1059,7 +1095,9 @@ Inductive sheet_content : Type :=
 Record esheetref : Type := mkSheetRef {
   sr_name : str;               (* sheet name *)
   sr_rid : str;                (* relationship id *)
-  sr_part : str;               (* part name relative to xl/, e.g. worksheets/sheet1.xml *)
+  sr_part : str;               (* part name relative to xl/: ANY name (worksheets/sheet1.xml, sheet1.xml,
+                                  ws/a.xml, …) — the folders are a convention, not part of the format *)
+  sr_type : str;               (* the Type of the relationship: THIS tells the kind of sheet *)
   sr_spelling : spelling;      (* how the Target attribute spells it *)
   sr_extra : attrs;            (* sheetId, state … *)
   sr_content : sheet_content   (* what the part holds *)
@@ -1076,7 +1114,8 @@ Record eworkbook : Type := mkWorkbook {
 Definition rels_events (wb : eworkbook) : list event :=
   Other :: elem (wb_relspfx wb) n_Relationships []
     (flat_map (fun s => elem (wb_relspfx wb) n_Relationship
-                          [(a_Id, sr_rid s); (a_Target, spell (sr_spelling s) (sr_part s))] [])
+                          [(a_Id, sr_rid s); (a_Type, sr_type s);
+                           (a_Target, spell (sr_spelling s) (sr_part s))] [])
               (wb_sheets wb)).
 
 Definition workbook_events (wb : eworkbook) : list event :=
@@ -1112,10 +1151,17 @@ Fixpoint str_distinct (names : list str) : bool :=
 Definition is_start (e : event) : bool :=
   match e with XmlText.Start _ _ => true | _ => false end.
 
-Definition folder_names : list str := [p_worksheets; p_chartsheets; p_dialogsheets; p_macrosheets].
-(* a sheet part lives in one of the four folders the reader knows *)
-Definition part_ok (part : str) : bool :=
-  existsb (fun f => starts_with (f ++ [SLASH]) part) folder_names.
+(* the relationship types of sheet parts (ECMA-376 Part 1 12.3.24 / 12.3.2 / 12.3.7, transitional
+   and strict; MS-OFFMACRO2 2.2.1.4 / 2.2.1.5) *)
+Definition sheet_rel_types : list str :=
+  [t_ws; t_ws_strict; t_cs; t_cs_strict; t_ds; t_ds_strict; t_xlm; t_xlim].
+(* a part name written as a relative Target must not itself begin with xl/ or /xl/ (the reader
+   takes such a Target for one of the other two spellings); otherwise any name *)
+Definition part_ok (sp : spelling) (part : str) : bool :=
+  match sp with
+  | SpRelative => negb (starts_with p_xl part) && negb (starts_with p_slash_xl part)
+  | _ => true
+  end.
 
 (* other attributes of <sheet>: not name, not a relationship id, a state only with a legal value *)
 Definition sheet_attr_ok (kv : str * str) : bool :=
@@ -1149,7 +1195,8 @@ Definition date_flag (wb : eworkbook) : bool :=
 Definition legal_workbook (wb : eworkbook) : bool :=
   no_colon (wb_pfx wb) && no_colon (wb_relspfx wb) && no_colon (wb_relpfx wb) &&
   match wb_relpfx wb with [] => false | _ => true end &&
-  forallb (fun s => part_ok (sr_part s) && forallb sheet_attr_ok (sr_extra s)) (wb_sheets wb) &&
+  forallb (fun s => part_ok (sr_spelling s) (sr_part s) && existsb (str_eqb (sr_type s)) sheet_rel_types
+                    && forallb sheet_attr_ok (sr_extra s)) (wb_sheets wb) &&
   str_distinct (map sr_name (wb_sheets wb)) && str_distinct (map sr_rid (wb_sheets wb)).
 
 (* the zip package holds the two workbook parts and one part per sheet, under any ASCII casing of
